@@ -269,6 +269,35 @@ def gen_eq(tier, rng, factidx):
                             [decl + " return (RR)((W)a %s (W)b);" % op],
                             pre=pre, cfg=cfg, may_reject=True,
                             meta=dict(op=op, W="RR" if fits else W.name, anchor="include/cnl/_impl/elastic_tag/custom_operator.h (binary_arithmetic_op specialisation)")))
+    # unary minus / plus and shifts by a constant: the operand must be brought to the result type BEFORE the operator runs
+    # (negating an unsigned rep before widening wraps; found missing by seeded change M-C05-1)
+    ud = [1, 7, 8, 9, 15, 16, 17, 31, 32, 33, 63, 64] if tier == "quick" else list(range(1, 65))
+    for cfg in ("clang", "gcc"):
+        for fam in ("i8", "int"):
+            for L in ud:
+                for Ls in (True, False):
+                    if tier == "quick" and cfg == "gcc" and L % 3:
+                        continue
+                    EL = ename(L, Ls, fam)
+                    ra = "cnl::_impl::rep_of_t<%s>" % EL
+                    A = erange(L, Ls)
+                    pre = ["a >= %s" % ("-%d" % -A[0] if A[0] else "0"), "a <= %d" % A[1]] if L < 64 or Ls else []
+                    for sym, nm in (("-", "neg"), ("+", "pos")):
+                        rt = "cnl::_impl::rep_of_t<decltype(%sstd::declval<%s>())>" % (sym, EL)
+                        obs.append(kern.Ob("%s/eq/%s/%s%d%s" % (cfg, fam, sym, L, "s" if Ls else "u"), rt, [(ra, "a")],
+                                           "return unwrap(%swrap<%s>(a));" % (sym, EL), ["using RR = %s; return (RR)(%s(RR)a);" % (rt, sym)], pre=pre, cfg=cfg, may_reject=True,
+                                           meta=dict(op=nm, anchor="include/cnl/_impl/elastic_integer/custom_operator.h (unary +/-)")))
+                    for k in (1, 3):
+                        if L + k > 63:
+                            continue     # the result needs a 128-bit rep, which is returned as two words: outside what the normaliser relates
+                        rt = "cnl::_impl::rep_of_t<decltype(std::declval<%s>() << constant<%d>{})>" % (EL, k)
+                        obs.append(kern.Ob("%s/eq/%s/%d%s<<%d" % (cfg, fam, L, "s" if Ls else "u", k), rt, [(ra, "a")],
+                                           "return unwrap(wrap<%s>(a) << constant<%d>{});" % (EL, k), ["using RR = %s; return (RR)((RR)a * ((RR)1 << %d));" % (rt, k), "using RR = %s; return (RR)((RR)a << %d);" % (rt, k)],
+                                           pre=pre, cfg=cfg, may_reject=True, meta=dict(op="shl")))
+                        if k < L:
+                            rt = "cnl::_impl::rep_of_t<decltype(std::declval<%s>() >> constant<%d>{})>" % (EL, k)
+                            obs.append(kern.Ob("%s/eq/%s/%d%s>>%d" % (cfg, fam, L, "s" if Ls else "u", k), rt, [(ra, "a")],
+                                               "return unwrap(wrap<%s>(a) >> constant<%d>{});" % (EL, k), ["using RR = %s; return (RR)(a >> %d);" % (rt, k)], pre=pre, cfg=cfg, may_reject=True, meta=dict(op="shr")))
     return obs
 
 
